@@ -114,6 +114,11 @@ func (c *Ctx) graph(f *Fn) *Graph {
 					cond = nil
 				}
 			}
+			if cond != nil {
+				// conditions computed into single-definition locals
+				// (`valid := json.Valid(b); if !valid`) are looked through
+				cond = expandCond(f, cond, 0)
+			}
 			g.link(l, GEdge{To: first[b.Succs[0]], Cond: cond, Truth: true, SwitchTag: tag, CaseVal: caseVal})
 			g.link(l, GEdge{To: first[b.Succs[1]], Cond: cond, Truth: false, SwitchTag: tag, CaseVal: caseVal})
 		}
@@ -326,9 +331,13 @@ func callsIn(n ast.Node, withDefer bool) []*ast.CallExpr {
 	switch s := n.(type) {
 	case *ast.DeferStmt:
 		if !withDefer {
-			// arguments of the deferred call are evaluated now
+			// arguments of the deferred call, and the receiver expression of a
+			// deferred method call, are evaluated now
 			for _, a := range s.Call.Args {
 				out = append(out, callsIn(a, false)...)
+			}
+			if sel, ok := ast.Unparen(s.Call.Fun).(*ast.SelectorExpr); ok {
+				out = append(out, callsIn(sel.X, false)...)
 			}
 			return out
 		}
@@ -470,4 +479,129 @@ func (g *Graph) dump(c *Ctx) {
 		}
 		fmt.Println()
 	}
+}
+
+// singleDef returns the defining expression of a local variable that is
+// defined exactly once (single-value := or var) and never reassigned,
+// incremented or address-taken in the enclosing declaration.
+func singleDef(f *Fn, o types.Object) ast.Expr {
+	v, ok := o.(*types.Var)
+	if !ok || v.IsField() || v.Pkg() == nil || v.Parent() == v.Pkg().Scope() || isParamOf(f, v) {
+		return nil
+	}
+	info := f.Info()
+	var def ast.Expr
+	n := 0
+	bad := false
+	root := ast.Node(f.Body)
+	if f.Decl != nil && f.Decl.Body != nil {
+		root = f.Decl.Body
+	}
+	ast.Inspect(root, func(x ast.Node) bool {
+		switch s := x.(type) {
+		case *ast.AssignStmt:
+			for i, l := range s.Lhs {
+				if identObj(info, l) != o {
+					continue
+				}
+				n++
+				if len(s.Lhs) == len(s.Rhs) {
+					def = s.Rhs[i]
+				} else {
+					bad = true // one of several results of a call
+				}
+			}
+		case *ast.ValueSpec:
+			for i, id := range s.Names {
+				if info.Defs[id] == o {
+					n++
+					if i < len(s.Values) && len(s.Values) == len(s.Names) {
+						def = s.Values[i]
+					} else {
+						bad = true
+					}
+				}
+			}
+		case *ast.IncDecStmt:
+			if identObj(info, s.X) == o {
+				bad = true
+			}
+		case *ast.UnaryExpr:
+			if s.Op == token.AND && identObj(info, s.X) == o {
+				bad = true
+			}
+		case *ast.RangeStmt:
+			if identObj(info, s.Key) == o || (s.Value != nil && identObj(info, s.Value) == o) {
+				bad = true
+			}
+		}
+		return true
+	})
+	if bad || n != 1 || def == nil {
+		return nil
+	}
+	if _, isLit := ast.Unparen(def).(*ast.FuncLit); isLit {
+		return nil
+	}
+	return def
+}
+
+// expandCond rewrites a condition so that boolean locals and comparison
+// operands with a single definition are replaced by their defining
+// expressions. Nil comparisons are left alone: facts about error variables are
+// tracked per variable.
+func expandCond(f *Fn, e ast.Expr, depth int) ast.Expr {
+	if depth > 3 {
+		return e
+	}
+	info := f.Info()
+	switch x := e.(type) {
+	case *ast.ParenExpr:
+		return expandCond(f, x.X, depth)
+	case *ast.UnaryExpr:
+		if x.Op == token.NOT {
+			in := expandCond(f, x.X, depth)
+			if in != x.X {
+				return &ast.UnaryExpr{OpPos: x.OpPos, Op: x.Op, X: in}
+			}
+		}
+		return e
+	case *ast.BinaryExpr:
+		switch x.Op {
+		case token.LAND, token.LOR:
+			a, b := expandCond(f, x.X, depth), expandCond(f, x.Y, depth)
+			if a != x.X || b != x.Y {
+				return &ast.BinaryExpr{X: a, OpPos: x.OpPos, Op: x.Op, Y: b}
+			}
+			return e
+		case token.EQL, token.NEQ, token.LSS, token.LEQ, token.GTR, token.GEQ:
+			if isNilIdent(x.X) || isNilIdent(x.Y) {
+				return e
+			}
+			op := func(o ast.Expr) ast.Expr {
+				if id, ok := ast.Unparen(o).(*ast.Ident); ok {
+					if d := singleDef(f, info.Uses[id]); d != nil {
+						if t := info.TypeOf(d); t != nil && !isErrorType(t) {
+							return d
+						}
+					}
+				}
+				return o
+			}
+			a, b := op(x.X), op(x.Y)
+			if a != x.X || b != x.Y {
+				return &ast.BinaryExpr{X: a, OpPos: x.OpPos, Op: x.Op, Y: b}
+			}
+		}
+		return e
+	case *ast.Ident:
+		if t := info.TypeOf(x); t != nil {
+			if b, ok := t.Underlying().(*types.Basic); ok && b.Info()&types.IsBoolean != 0 {
+				if d := singleDef(f, info.Uses[x]); d != nil {
+					return expandCond(f, d, depth+1)
+				}
+			}
+		}
+	}
+	return e
 }
